@@ -157,7 +157,7 @@ Print Assumptions C10_normalisation.
    projected distance monotone by reflecting the rest of the list, total, the linear interpolation s(s_perp); the
    PrimFloat instance is run bit for bit against the real method on every run). *)
 From Coq Require Import Arith.
-From HT Require Import Field Model_Sperp Proof_Sperp.
+From HT Require Import Field Model_Quadrature Proof_Quadrature Model_Sperp Proof_Sperp.
 Import ListNotations.
 
 (* the loop going up from startInd yields the running sums of the ABSOLUTE increments (for a list of any length) ... *)
@@ -178,3 +178,12 @@ Theorem C10_perp_distance_is_monotone : forall (s : list R) si, (si < length s)%
 Proof. exact monotonise_nondecr. Qed.
 
 Print Assumptions C10_perp_distance_is_monotone.
+
+(* the spacing function built on the perpendicular distance starts at 0 at startInd and reaches the contour length where the
+   perpendicular distance reaches its total (strictly increasing perpendicular distances) *)
+Theorem C10_perp_spacing_end_points : forall (sp dist : list R) si ei, incr sp -> (2 <= length sp)%nat -> length dist = length sp ->
+  (si < length sp)%nat -> (ei < length sp)%nat ->
+  s_of_sperp Rops sp dist si (nth si sp 0) = 0 /\
+  s_of_sperp Rops sp dist si (nth ei sp 0) = nth ei dist 0 - nth si dist 0.
+Proof. exact s_of_sperp_end_points. Qed.
+Print Assumptions C10_perp_spacing_end_points.
